@@ -95,7 +95,7 @@ def verify_function(reg, qualname, opts=None) -> FunctionReport:
             st.ghost["stdout"] = (fresh("out_n0", smt.I), fresh("out_arr0", smt.ArrIV))
             pre.ghost["stdout"] = st.ghost["stdout"]
             st.assume(st.ghost["stdout"][0] >= 0)
-        for r in c.requires:
+        for r in c.requires + c.defs:
             st.assume(spec_bool(eng, r, st))
         for m in c.modifies:
             v = eng.as_val(st, spec_value(eng, m, st))
@@ -199,25 +199,27 @@ def discharge(eng, rep, opts):
             rep.obligations.append(dict(name=ob.name, kind=ob.kind, status="unsat", seconds=0.0,
                                         backend="simplifier", line=ob.lineno))
             continue
-        # staged: z3 (short) -> cvc5 -> z3 (long).  Only `unsat` discharges; cvc5 often decides in a second
-        # what z3's quantifier instantiation does not find in ten (measured), and vice versa.
-        quick_ms = opts.get("z3_quick_ms", 6000)
-        r = smt.check_valid(ob.pc, ob.goal, quick_ms)
+        # portfolio, budgets in z3 resource units (deterministic): neither quantifier-instantiation mode
+        # dominates on these VCs (measured: 0.03 s vs unknown, in both directions); only `unsat` discharges
+        stages = [("z3-mbqi", {}, 1500), ("z3-ematch", smt.EMATCH, 6000), ("z3-mbqi", {}, 6000),
+                  ("cvc5", None, 15000), ("z3-ematch", smt.EMATCH, timeout)]
+        r = None
+        secs = 0.0
         backend = "z3"
-        secs = r.seconds
-        if r.status == "unknown" and opts.get("cvc5", True):
-            from . import cvc5_backend
-            r2 = cvc5_backend.check(ob.pc, ob.goal, opts.get("cvc5_timeout_ms", 60000))
+        for name, cfg, budget in stages:
+            if name == "cvc5":
+                if not opts.get("cvc5", True):
+                    continue
+                from . import cvc5_backend
+                r2 = cvc5_backend.check(ob.pc, ob.goal, budget)
+            else:
+                r2 = smt.check_valid(ob.pc, ob.goal, budget, config=cfg)
             secs += r2.seconds
-            if r2.status in ("unsat", "sat"):
+            if r is None or r2.status != "unknown":
                 r = r2
-                backend = "cvc5"
-        if r.status == "unknown" and timeout > quick_ms:
-            r3 = smt.check_valid(ob.pc, ob.goal, timeout, config={})   # z3 with model-based instantiation
-            secs += r3.seconds
-            if r3.status != "unknown":
-                r = r3
-                backend = "z3"
+                backend = name
+            if r2.status != "unknown":
+                break
         ob.result = r
         d = dict(name=ob.name, kind=ob.kind, status=r.status, seconds=round(secs, 4), backend=backend,
                  line=ob.lineno)
